@@ -1,6 +1,7 @@
 package c14
 
 import (
+	"math"
 	"strconv"
 
 	"github.com/cloudwego/eino/schema"
@@ -55,6 +56,7 @@ const (
 	fReg
 	fUnreg
 	fNamed
+	fKeyed // a map with another key type than string (keyed_maps_test.go); the variant is fixed per schema key
 	nFieldKinds
 )
 
@@ -64,6 +66,7 @@ type mapSchema struct {
 	keys  []string
 	kinds []fieldKind
 	subs  []*mapSchema
+	vars  []int // fKeyed: which map type
 	depth int
 }
 
@@ -73,13 +76,22 @@ type genEnv struct {
 	nzProb       float64 // "single non-zero" kinds: probability of a non-zero value
 	presentProb  float64
 	maxDepth     int
+	nanProb      float64 // float keys / float values: probability of NaN
+	keyedProb    float64 // schema keys that hold a map with non-string keys
 	// observed while generating
+	sawNaN    bool
+	sawKeyed  bool
 	sawNil    bool
 	sawDepth  int
 	conflicts int
 }
 
 func genSchema(r *mon.Rand, depth, maxDepth int, rich bool) *mapSchema {
+	return genSchemaK(r, depth, maxDepth, rich, 0)
+}
+
+// genSchemaK: keyedProb = share of the keys that hold a map with non-string keys
+func genSchemaK(r *mon.Rand, depth, maxDepth int, rich bool, keyedProb float64) *mapSchema {
 	s := &mapSchema{depth: depth}
 	nk := r.Range(1, 4)
 	if depth > 1 {
@@ -131,16 +143,22 @@ func genSchema(r *mon.Rand, depth, maxDepth int, rich bool) *mapSchema {
 		if !rich && (k == fMsg || k == fMsgs) {
 			k = fString
 		}
+		variant := 0
+		if keyedProb > 0 && r.Prob(keyedProb) {
+			k = fKeyed
+			variant = r.Intn(nKeyedVariants)
+		}
 		var sub *mapSchema
 		if k == fMap {
 			if depth >= maxDepth {
 				k = fString
 			} else {
-				sub = genSchema(r, depth+1, maxDepth, rich)
+				sub = genSchemaK(r, depth+1, maxDepth, rich, keyedProb)
 			}
 		}
 		s.kinds = append(s.kinds, k)
 		s.subs = append(s.subs, sub)
+		s.vars = append(s.vars, variant)
 	}
 	return s
 }
@@ -163,6 +181,11 @@ func genMapBySchema(r *mon.Rand, s *mapSchema, e *genEnv) map[string]any {
 		if e.conflictProb > 0 && r.Prob(e.conflictProb) {
 			kind = mon.PickOne(r, leafKinds)
 			e.conflicts++
+		}
+		if kind == fKeyed {
+			e.sawKeyed = true
+			m[k] = genKeyed(r, s.vars[i], e)
+			continue
 		}
 		m[k] = genValue(r, kind, s.subs[i], e)
 	}
@@ -191,6 +214,11 @@ func genValue(r *mon.Rand, kind fieldKind, sub *mapSchema, e *genEnv) any {
 	case fInt:
 		return r.Intn(100) - 10
 	case fFloat:
+		if e.nanProb > 0 && r.Prob(e.nanProb) {
+			// builtin scalar: the last value wins, whatever it is
+			e.sawNaN = true
+			return mon.PickOne(r, []float64{math.NaN(), math.Inf(1), negZero()})
+		}
 		return float64(r.Intn(1000)) / 8
 	case fBool:
 		return r.Bool()
@@ -294,6 +322,11 @@ func newEnv(r *mon.Rand) *genEnv {
 	if r.Prob(0.035) {
 		e.nilProb = mon.PickOne(r, []float64{0.1, 0.4})
 	}
+	if r.Prob(0.14) {
+		// maps with other key types than string below some keys; two thirds of these sessions produce NaN
+		e.keyedProb = mon.PickOne(r, []float64{0.25, 0.5})
+		e.nanProb = mon.PickOne(r, []float64{0, 0.15, 0.4})
+	}
 	return e
 }
 
@@ -340,8 +373,8 @@ func newSession(r *mon.Rand, heavyExtra bool) *msgSession {
 		s.sharedIdxPointer = &v
 	}
 	s.env = newEnv(r)
-	if heavyExtra || r.Prob(0.45) {
-		s.extra = genSchema(r, 1, 3, true)
+	if heavyExtra || r.Prob(0.45) || s.env.keyedProb > 0 {
+		s.extra = genSchemaK(r, 1, 3, true, s.env.keyedProb)
 	}
 	return s
 }
@@ -492,7 +525,7 @@ func genMsgListSeq(r *mon.Rand) ([][]*schema.Message, bool) {
 func genMapSeq(r *mon.Rand) ([]map[string]any, *genEnv) {
 	n := genLen(r)
 	e := newEnv(r)
-	s := genSchema(r, 1, 3, true)
+	s := genSchemaK(r, 1, 3, true, e.keyedProb)
 	out := make([]map[string]any, n)
 	for i := range out {
 		if r.Prob(0.05) {
